@@ -12,11 +12,21 @@ Decided:
         tunnel is relayed through the tunnel to the origin, so nothing may be written for it.  Reported under its own
         rule id because it fires on today's tree (F-C24, known finding): a standing R24.2 finding would make every R24.2
         self-test mutant vacuously "caught".
+  R24.5 the same decision extracted by *interpreting* both hook methods (pyint), with the attributes of the flow that do not determine
+        where the request is sent as INDEPENDENT inputs: the HTTP layer routes by (proxy mode, request.scheme) alone
+        (GetHttpConnection.tls = request.scheme == "https"; CONNECT to the proxy iff tls or mode != upstream), while at hook time
+        ``flow.server_conn`` is the context's current - for a top-level request still unconnected - server (tls False whatever the
+        scheme), the client may or may not speak TLS to the listener and any port goes with any scheme.  Every (auth, mode, scheme) cell
+        is therefore evaluated in the worlds server_conn.tls x client_conn.tls x port that agree / disagree with the scheme; the
+        reference outcome depends on (auth, mode, scheme) only.  A decision keyed on a stand-in for the scheme is *analysed* and
+        reported here; R24.2's strict path table still refuses flow attributes it does not model (exit 2 unless another rule fires).
   R24.3 ``HttpConnectUpstreamHook`` is constructed only in ``HttpUpstreamProxy.start_handshake``, only on paths where
         ``self.send_connect`` is true, with the flow whose request is the CONNECT built there; the bytes assembled from
         that request go to ``self.tunnel_connection`` and nothing is sent to another connection on those paths; the
         tunnel connection is the ``Server`` built from ``ctx.server.via`` (``make`` / ``__init__`` wiring).
-NOT decided: what an addon that re-targets ``server_conn.via`` causes; the bytes on the wire (HTTP/1 assembly is trusted).
+NOT decided: what an addon that re-targets ``server_conn.via`` causes; the bytes on the wire (HTTP/1 assembly is trusted); that the HTTP
+layer really sends a request only on a connection matching its scheme (connection reuse: C08 R08.1/R08.2 - a relaxed
+``connection_spec_matches`` that lets a plain request ride an existing CONNECT+TLS tunnel is a C08 violation and invisible here).
 
 `tunnelled` is an input the property needs (a plain-HTTP request sent through a client CONNECT tunnel in upstream mode is
 relayed to the origin, see /verif/findings/F-C24).  The accepted ways for the addon to observe it are listed in
@@ -377,29 +387,26 @@ def r24_5(ctx):
     from ..pyint import Raised
     from ..pyint import Rec
 
+    import itertools
+
     modes = mode_classes(ctx)
     AUTH = b"Basic dXNlcjpwYXNz"
     n = 0
     bad = 0
+    # Where a request goes is decided by the HTTP layer from (proxy mode, request.scheme) alone (GetHttpConnection.tls = request.scheme == "https",
+    # C08 R08.3; CONNECT to the proxy iff tls or mode != upstream).  Everything else a hook can see on the flow is NOT a function of that pair at
+    # hook time and is therefore an independent input of the table: the flow's server connection is the context's current one (for a top-level
+    # request the unconnected placeholder: tls False, whatever the scheme), the client may or may not speak TLS to the proxy listener, and any
+    # port goes with any scheme.  The reference outcome depends on (auth, mode, scheme) only, so a decision that keys on one of the
+    # secondary attributes is caught in the world where that attribute disagrees with the scheme.
+    secondary = list(itertools.product((None, False, True), (None, False, True), (None, False, True)))
+    secondary.sort(key=lambda t: sum(x is not None for x in t))  # the world where everything follows the scheme first
     for meth in ("requestheaders", "http_connect_upstream"):
         fn = ctx.func(UA, f"UpstreamAuth.{meth}")
         for auth in (AUTH, None):
             for mode in modes if meth == "requestheaders" else ["UpstreamMode"]:
                 for scheme in ("http", "https"):
-                    it = Interp(ctx.model, trusted_modules={"base64": __import__("base64"), "re": __import__("re")})
                     anc = [c.name for _, c in ctx.model.mro(MODE_SPECS, mode)]
-                    headers = DictRec("Headers", {"Host": "example.com", "Accept": "*/*"}, case_insensitive=True, _name="request.headers")
-                    req = Rec("Request", _name="request", scheme=scheme, headers=headers, method="CONNECT" if meth == "http_connect_upstream" else "GET", host="example.com", port=80 if scheme == "http" else 443,
-                              authority="example.com", path="/", http_version="HTTP/1.1", is_http2=False, is_http3=False, is_http11=True, is_http10=False, first_line_format="absolute")
-                    mode_rec = Rec(mode, _bases=tuple(anc[1:]), _impl=(MODE_SPECS, mode), scheme="http", transport_protocol="tcp", full_spec=mode, type_name=mode)
-                    flow = Rec("HTTPFlow", _name="flow", request=req, response=None, client_conn=Rec("Client", proxy_mode=mode_rec, tls=scheme == "https", tls_established=scheme == "https"),
-                               server_conn=Rec("Server", via=None, address=("example.com", 80), tls=scheme == "https"), metadata=DictRec("dict", {}, _name="flow.metadata"), is_replay=None, live=True)
-                    self_rec = Rec("UpstreamAuth", _impl=(UA, "UpstreamAuth"), auth=auth)
-                    try:
-                        it.method(self_rec, meth, flow)
-                        outcome = {k.lower(): v for k, v in headers._items.items() if k.lower() in ("proxy-authorization", "authorization")}
-                    except Raised as r:
-                        outcome = f"raises {r.name}"
                     if meth == "http_connect_upstream":
                         want = {"proxy-authorization": AUTH} if auth else {}
                     elif auth and mode == "UpstreamMode" and scheme == "http":
@@ -408,15 +415,42 @@ def r24_5(ctx):
                         want = {"authorization": AUTH}
                     else:
                         want = {}
-                    n += 1
-                    ctx.cells += 1
-                    if outcome != want:
+                    failed = None
+                    for server_tls, client_tls, std_port in secondary:
+                        https = scheme == "https"
+                        s_tls = https if server_tls is None else server_tls
+                        c_tls = https if client_tls is None else client_tls
+                        port = (443 if https else 80) if std_port is None else ((443 if https else 80) if std_port else (8080 if https else 443))
+                        if (server_tls, client_tls, std_port) != (None, None, None) and (s_tls, c_tls, port) == (https, https, 443 if https else 80):
+                            continue
+                        it = Interp(ctx.model, trusted_modules={"base64": __import__("base64"), "re": __import__("re")})
+                        headers = DictRec("Headers", {"Host": "example.com", "Accept": "*/*"}, case_insensitive=True, _name="request.headers")
+                        req = Rec("Request", _name="request", scheme=scheme, headers=headers, method="CONNECT" if meth == "http_connect_upstream" else "GET", host="example.com", port=port,
+                                  authority="example.com", path="/", http_version="HTTP/1.1", is_http2=False, is_http3=False, is_http11=True, is_http10=False, first_line_format="absolute")
+                        mode_rec = Rec(mode, _bases=tuple(anc[1:]), _impl=(MODE_SPECS, mode), scheme="http", transport_protocol="tcp", full_spec=mode, type_name=mode)
+                        flow = Rec("HTTPFlow", _name="flow", request=req, response=None, client_conn=Rec("Client", proxy_mode=mode_rec, tls=c_tls, tls_established=c_tls),
+                                   server_conn=Rec("Server", via=None, address=("example.com", port), tls=s_tls, tls_established=False, connected=False, timestamp_start=None, peername=None),
+                                   metadata=DictRec("dict", {}, _name="flow.metadata"), is_replay=None, live=True)
+                        self_rec = Rec("UpstreamAuth", _impl=(UA, "UpstreamAuth"), auth=auth)
+                        try:
+                            it.method(self_rec, meth, flow)
+                            outcome = {k.lower(): v for k, v in headers._items.items() if k.lower() in ("proxy-authorization", "authorization")}
+                        except Raised as r:
+                            outcome = f"raises {r.name}"
+                        n += 1
+                        ctx.cells += 1
+                        if outcome != want and failed is None:
+                            failed = (outcome, "" if (server_tls, client_tls, std_port) == (None, None, None) else f" [flow.server_conn.tls={s_tls} flow.client_conn.tls={c_tls} request.port={port}]")
+                            break
+                    if failed is not None:
                         bad += 1
+                        outcome, world = failed
                         got_txt = outcome if isinstance(outcome, str) else sorted(outcome)
-                        ctx.fail("R24.5", (UA, f"UpstreamAuth.{meth}", fn), f"{meth}: mode={mode} scheme={scheme} auth={'set' if auth else 'unset'} -> {got_txt}, expected {sorted(want)}",
-                                 "upstream credentials are attached to a request that does not go to the upstream proxy / reverse target (or withheld where they belong)")
+                        ctx.fail("R24.5", (UA, f"UpstreamAuth.{meth}", fn), f"{meth}: mode={mode} scheme={scheme} auth={'set' if auth else 'unset'} -> {got_txt}, expected {sorted(want)}{world}",
+                                 "upstream credentials are attached to a request that does not go to the upstream proxy / reverse target (or withheld where they belong)"
+                                 + ("; the decision follows an attribute of the flow that does not determine where the request is sent (only proxy mode and request.scheme do)" if world else ""))
     if not bad:
-        ctx.ok("R24.5", f"{n} cells (auth x mode x scheme, both hook methods) interpreted from the AST agree with the reference")
+        ctx.ok("R24.5", f"{n} cells (auth x mode x scheme x independent server_conn.tls / client_conn.tls / port, both hook methods) interpreted from the AST agree with the reference")
 
 
 def r24_tables(ctx):
@@ -473,6 +507,9 @@ MUTANTS = [
             if header:
                 f.request.headers[header] = self.auth
 """, "R24.5"),
+    Mutant("scheme-read-from-server-connection", UA, "                and f.request.scheme == \"http\"\n", "                and not f.server_conn.tls\n", "R24.5"),
+    Mutant("scheme-read-from-client-tls", UA, "                and f.request.scheme == \"http\"\n", "                and not f.client_conn.tls_established\n", "R24.5"),
+    Mutant("scheme-guessed-from-port", UA, "                and f.request.scheme == \"http\"\n", "                and f.request.port != 443\n", "R24.5"),
     Mutant("header-value-not-configured-auth", UA, '                f.request.headers["Authorization"] = self.auth', '                f.request.headers["Authorization"] = b"Basic Og=="', "R24.5"),
     Mutant("auth-read-in-new-hook", UA, "    def requestheaders(self, f: http.HTTPFlow):\n",
            "    def request(self, f: http.HTTPFlow):\n        if self.auth:\n            f.request.headers[\"Proxy-Authorization\"] = self.auth\n\n    def requestheaders(self, f: http.HTTPFlow):\n", "R24.1"),
